@@ -378,6 +378,10 @@ func (r *Realm) parseLines(name string, lines []string) (err error) {
 			// The closing bracket of a nested block: nothing to assign.
 			continue
 		}
+		if c > 0 {
+			// Relations inside a nested block belong to that block, not to the realm.
+			continue
+		}
 		p := strings.Split(line, "=")
 		key := strings.TrimSpace(strings.ToLower(p[0]))
 		v := strings.TrimSpace(p[1])
